@@ -83,7 +83,7 @@ def grow(r):
             d = d + rng.normal(scale=0.04, size=3)
             d /= np.linalg.norm(d)
             j = len(atoms)
-            atoms.append(dict(el=sp["el"], fc=sp["fc"], spin=sp["spin"], hint=sp["hint"]))
+            atoms.append(dict(el=sp["el"], fc=sp["fc"], spin=sp["spin"], hint=sp["hint"], cc=bool(sp.get("cc"))))
             coords.append(coords[i] + d * (1.3 + 0.3 * rng.random()))
             bonds.append((i, j, sp["bt"]))
             if depth < 2 and sp["el"] in GROUP:
@@ -112,13 +112,14 @@ def grow(r):
 
 def build(r, cls):
     import molli as ml
-    from molli.chem import Atom, BondType
+    from molli.chem import Atom, BondType, AtomType
 
     spec, coords, bonds = grow(r)
     atoms = []
     for s in spec:
         attrib = {} if s["hint"] is None else {"__implicit_hydrogens": s["hint"]}
-        atoms.append(Atom(element=s["el"], formal_charge=s["fc"], formal_spin=s["spin"], attrib=attrib))
+        # (an atom may be flagged as a coordination centre: its bonds count in its neighbours' valence like any other bond)
+        atoms.append(Atom(element=s["el"], formal_charge=s["fc"], formal_spin=s["spin"], attrib=attrib, **({"atype": AtomType.CoordinationCenter} if s.get("cc") else {})))
     kw = {"atomic_charges": np.linspace(-0.2, 0.2, len(atoms))} if cls is ml.Molecule else {}
     if cls is ml.Molecule and r.get("decl"):
         # total charge / multiplicity declared at molecule level (not derivable from per-atom annotations), name, attributes
@@ -324,6 +325,7 @@ def strat_grown(tier):
         "fc": st.sampled_from([0, 0, 0, 1, -1]), "spin": st.sampled_from([0, 0, 0, 1, 2]),
         "hint": st.one_of(st.none(), st.none(), st.none(), st.integers(0, 3)),
         "bt": st.sampled_from([1, 1, 1, 2, 3, 20]), "tmpl": st.sampled_from(["tet", "tet", "tri"]), "nchild": st.integers(0, 3),
+        "cc": st.sampled_from([False, False, False, False, True]),
     })
     root = st.fixed_dictionaries({
         "el": st.sampled_from(CENTRES), "fc": st.sampled_from([0, 0, 1, -1]), "spin": st.sampled_from([0, 0, 0, 1, 2]),
